@@ -81,6 +81,7 @@ def handle : Handler
   | "pre.lower", args => str1 (fun s => hexStr (lower s)) args
   | "pre.upper", args => str1 (fun s => hexStr (upper s)) args
   | "pre.asciiignore", args => str1 (fun s => hexStr (asciiIgnore s)) args
+  | "pre.newlinere", args => str1 (fun s => outBool (newlineReSearch s).isSome) args
   | "pre.isascii", args => str1 (fun s => outBool (isascii s)) args
   | "pre.splitws", args => str1 (fun s => outList hexStr (splitWs s)) args
   | "pre.join", [sep, l] =>
